@@ -216,6 +216,10 @@ Proof.
       apply fold_or_nm. intros q Hin. apply Hq; auto.
     + cbn [meas_at]. apply bind_nm; [apply meas_nm; auto|]. intros _ _.
       apply fold_unit_nm. intros q Hin. apply Hq; auto.
+  - (* Par (below an atomic composite) *)
+    apply covers_app in C as [Ci Co]. cbn [wf] in Hwf. destruct (IHp Hwf Hat s drop G Ci) as [Hb Hm].
+    split; [|exact Hm]. cbn [build]. apply bind_nm; auto. intros w _. destruct w; [|discriminate].
+    rewrite (eval_all_ok s (kept drop ow)); [discriminate|]. apply covers_kept; auto.
   - (* Ari *)
     apply covers_app in C as [Ci Co]. cbn [wf] in Hwf. destruct (IHp Hwf Hat s drop G Ci) as [Hb Hm].
     split; [|exact Hm]. cbn [build]. apply bind_nm; auto. intros w _. destruct w; [|discriminate].
